@@ -126,6 +126,23 @@ def scalar(rng, g, bigint):
         for i in range(0, nb, 3):
             v |= 4 << i
         return v % top, 'threshold_windows'
+    if k == 9 and nb > 64:
+        # 64-bit limb patterns: a fast path keyed on one limb (low limb 1, a zero limb, an all-ones limb) must not speak
+        # for the whole integer; windows that straddle a limb boundary read both limbs
+        v = 0
+        for i in range((nb + 63) // 64):
+            v |= rng.choice([0, 1, (1 << 64) - 1, 1 << 63, rng.getrandbits(64)]) << (64 * i)
+        if v % top:
+            return v % top, 'limb_pattern'
+    if k == 10 and nb > 64:
+        v = (1 + (rng.randrange(1, 1 << (nb - 64)) << 64))
+        if v < top:
+            return v, 'low_limb_one'      # 1 + m 2^64: not the unit scalar
+    if k == 11 and nb > 64:
+        j = 64 * rng.randrange(1, (nb + 63) // 64)
+        v = rng.choice([1 << j, (1 << j) - 1, (1 << j) + 1, 3 << (j - 1), ((1 << 6) - 1) << (j - 3)])
+        if 0 < v < top:
+            return v, 'limb_boundary'     # bits on both sides of a limb boundary
     return rng.randrange(top), 'random'
 
 
